@@ -206,7 +206,8 @@ class Model(object):
 def snapshot(c):
     """The observables of C02/C08, read through public attributes only."""
     log = []
-    for a, v in c.actions:
+    for e in c.actions:
+        a, v = e[0], e[1]           # (method, argument); an entry may carry more fields behind them
         if isinstance(v, dict):
             v = tuple(sorted(v.items()))
         log.append((a, v))
